@@ -98,6 +98,9 @@ def err_code(e):
     return 1000
 
 
+WIRES = {}     # (name, lifetime) -> Interest wire built by ndn.encoding.make_interest
+
+
 class Impl:
     def __init__(self, fe, loop):
         self.fe = fe
@@ -171,8 +174,11 @@ class Impl:
 
     async def recv(self, name, life, buf_kind, token):
         from ndn.encoding import make_interest, InterestParam, parse_tl_num, parse_interest
-        wire = make_interest(name, InterestParam(lifetime=life, nonce=0x01020304))
-        wire = bytes(wire) if buf_kind == 0 else bytearray(wire)
+        key = (tuple(name), life)
+        wire = WIRES.get(key)
+        if wire is None:
+            wire = WIRES[key] = bytes(make_interest(name, InterestParam(lifetime=life, nonce=0x01020304)))
+        wire = wire if buf_kind == 0 else bytearray(wire)
         if self.fe == FE_DISP:
             n, param, app_param, _ = parse_interest(wire)
             before = len(self.calls)
